@@ -665,7 +665,15 @@ func (b *BaseStore) Load(ctx context.Context, amount int) error {
 
 					// nor an entry fetched under an address that is not the address of
 					// its content (Sync and the replicator refuse it the same way)
-					if canonical, err := b.IO().Write(ctx, b.IPFS(), e, nil); err != nil || !canonical.Equals(e.GetHash()) {
+					canonical, wErr := b.IO().Write(ctx, b.IPFS(), e, nil)
+					if wErr != nil {
+						// the check could not be made: that is not a verdict on the entry
+						span.AddEvent("store-head-loading-error")
+						err = fmt.Errorf("unable to check the address of entry %s: %w", e.GetHash().String(), wErr)
+						return
+					}
+
+					if !canonical.Equals(e.GetHash()) {
 						refused++
 						continue
 					}
@@ -997,7 +1005,12 @@ func (b *BaseStore) LoadFromSnapshot(ctx context.Context) error {
 			continue
 		}
 
-		if canonical, err := b.IO().Write(ctx, b.IPFS(), e, nil); err != nil || !canonical.Equals(e.GetHash()) {
+		canonical, err := b.IO().Write(ctx, b.IPFS(), e, nil)
+		if err != nil {
+			return fmt.Errorf("unable to check the address of entry %s: %w", e.GetHash().String(), err)
+		}
+
+		if !canonical.Equals(e.GetHash()) {
 			continue
 		}
 
